@@ -16,7 +16,7 @@ func init() {
 	register(&propDef{
 		ID:      "C10",
 		Level:   "proof",
-		Explain: "Proof, for the stated clauses only, that the hand-written ClientHello handling cannot read out of bounds or panic and never buffers more than the first TLS record. The code is found by ROLE in the region of (*SNIProxy).ServeTCP, not by function name: parser roots = the same-package functions with a plain-data signature that the handler functions call with bytes captured before the route lookup (today clientHelloBufferSize and readServerName); parser region = the roots and every function of the package they call, however the parsing is cut into helpers. (M1) every index and slice expression of the parser region is in bounds: either the Go compiler's prove pass eliminates its check (go build -gcflags='-l -d=ssa/check_bce/debug=1' reports every check it could NOT eliminate; obligations are counted from the AST and matched by bracket position, an unattributable report taints its line), or - residual checks, typically in a helper whose parameter is what is indexed - the checker's own difference-bound prover shows index < len(operand) from the length facts that dominate the instruction: branch facts, len(x[a:b]) = b-a, len(make(n)) = n, the differences between the arguments proved at EVERY call site of a helper all of whose callers are static, the bounds of helper results on their returns - constant and relative to the helper's parameters (len(result) = n for a cursor's next(n)), leaving out the returns the caller's knowledge excludes (error certainly non-nil on the err == nil edge, flag false on the ok edge) and seeing through helpers that forward an inner call's results - and, for values that live in memory (a cursor object `type c []byte` / struct{b []byte} with methods, a captured variable, the field of a connection object that holds the captured bytes), the values a load can observe: found by walking backwards over every path to a store of the same location, an earlier load of it, the creation of the object, through calls (by the same walk from their compatible returns) and up to every call site, and given up as soon as anything in between MAY write the location by the type-based alias rules of c10_mem.go; there is no table of accepted expressions; (M2) the region contains no other panic source: no map write, explicit panic, go/defer/send, type assertion without comma-ok, recursion, call outside the region except a list of total library functions (binary.BigEndian.UintN needs len >= N/8 proved; the length-checked reading methods of x/crypto/cryptobyte.String count as total), no division or signed shift by a value not proved non-zero / non-negative, no make with an unproved size, no dereference of a pointer that is not an address taken in place, tested, or non-nil at every call site; (M3) what the handler functions themselves cut out of the captured bytes (data[5:]) is in bounds by the same two means - the prover uses the size function's bound on its nil-error returns (result >= 10); (S1) on every nil-error return of the size function result - recordLength <= 5 and result <= 16389, with recordLength any value that is the big-endian integer of bytes 3-4 of the function's input (shifts, encoding/binary, a helper computing one of these, also after the header has been converted or copied into a fixed-size array that is only read afterwards), the input being the peeked bytes from their first byte on, wrap-aware (a uint16 recordLength-4 is not recordLength-4); (S2) the capture buffer is make([]byte, n) with n the size function's result on its err == nil edge (through helper parameters and forwarding helpers), the one consuming read that can execute before a route lookup is io.ReadFull into the whole of it, every route lookup (the Lookup callback, or any dynamic call of type func(string) *route.Target) takes a result of a parser call (a result, a field of a result struct, a field of a struct the handler passed in) on the edge where that call reported success and the name is not empty. NOT covered by this claim: equality of the extracted name with crypto/tls's on well-formed hellos (semantic equivalence of two parsers) - of that clause only the two necessary conditions F1 and N1 stated below are checked.",
+		Explain: "Proof, for the stated clauses only, that the hand-written ClientHello handling cannot read out of bounds or panic and never buffers more than the first TLS record. The code is found by ROLE in the region of (*SNIProxy).ServeTCP, not by function name: parser roots = the same-package functions with a plain-data signature that the handler functions call with bytes captured before the route lookup (today clientHelloBufferSize and readServerName); a plain-data function that looks at no byte itself but only cuts its input with constant bounds (also out of a small wrapper struct) and hands it on to one such function, returning its results as they are, is plumbing between handler and parser: a handler function judged by M3, and the function it hands on to is the root; parser region = the roots and every function of the package they call, however the parsing is cut into helpers. (M1) every index and slice expression of the parser region is in bounds: either the Go compiler's prove pass eliminates its check (go build -gcflags='-l -d=ssa/check_bce/debug=1' reports every check it could NOT eliminate; obligations are counted from the AST and matched by bracket position, an unattributable report taints its line), or - residual checks, typically in a helper whose parameter is what is indexed - the checker's own difference-bound prover shows index < len(operand) from the length facts that dominate the instruction: branch facts, len(x[a:b]) = b-a, len(make(n)) = n, the differences between the arguments proved at EVERY call site of a helper all of whose callers are static, the bounds of helper results on their returns - constant and relative to the helper's parameters (len(result) = n for a cursor's next(n)), leaving out the returns the caller's knowledge excludes (error certainly non-nil on the err == nil edge, flag false on the ok edge) and seeing through helpers that forward an inner call's results; the differences between two results of one call (`recLen, msgLen, err := parseHeader(b)`, also a result the caller discards) proved at every compatible return; what a helper whose verdict is known here (error nil, flag true / false) established about its arguments on the returns compatible with that verdict (`if err := h.validate(); err != nil { return }`: parameters are immutable, what was tested about them on the way to `return nil` holds for the arguments); integer and slice fields of struct VALUES passed, returned and stored whole (a header struct), and the fields behind a pointer parameter / a pointer result as they are when the function is entered / the constructor returns, as long as nothing may have written them - and, for values that live in memory (a cursor object `type c []byte` / struct{b []byte} with methods, a captured variable, the field of a connection object that holds the captured bytes), the values a load can observe: found by walking backwards over every path to a store of the same location, an earlier load of it, the creation of the object, through calls (by the same walk from their compatible returns) and up to every call site, and given up as soon as anything in between MAY write the location by the type-based alias rules of c10_mem.go; there is no table of accepted expressions; (M2) the region contains no other panic source: no map write, explicit panic, go/defer/send, type assertion without comma-ok, recursion, call outside the region except a list of total library functions (binary.BigEndian.UintN needs len >= N/8 proved; the length-checked reading methods of x/crypto/cryptobyte.String count as total), no division or signed shift by a value not proved non-zero / non-negative, no make with an unproved size, no dereference of a pointer that is not an address taken in place, tested, or non-nil at every call site; (M3) what the handler functions themselves cut out of the captured bytes (data[5:]) is in bounds by the same two means - the prover uses the size function's bound on its nil-error returns (result >= 10); (S1) on every nil-error return of the size function result - recordLength <= 5 and result <= 16389, with recordLength any value that is the big-endian integer of bytes 3-4 of the function's input (shifts, encoding/binary, a helper computing one of these, a result of a helper or a field of the header struct a helper returns - by value or behind a pointer - that was assembled from them, also after the header has been converted or copied into a fixed-size array that is only read afterwards), the input being the peeked bytes from their first byte on, wrap-aware (a uint16 recordLength-4 is not recordLength-4); (S2) the capture buffer is make([]byte, n) with n the size function's result on its err == nil edge (through helper parameters and forwarding helpers), the one consuming read that can execute before a route lookup is io.ReadFull into the whole of it, every route lookup (the Lookup callback, or any dynamic call of type func(string) *route.Target) takes a result of a parser call (a result, a field of a result struct, a field of a struct the handler passed in) on the edge where that call reported success and the name is not empty (branch facts are read through a verdict kept in a variable, boolean or not: a log line, a reason code or an error compared with a constant is resolved on each edge of the merge that feeds it). NOT covered by this claim: equality of the extracted name with crypto/tls's on well-formed hellos (semantic equivalence of two parsers) - of that clause only the two necessary conditions F1 and N1 stated below are checked.",
 		Run:     runC10,
 		Trusted: []string{"the Go compiler's prove pass is sound (a bounds check it eliminates cannot fail)", "the checker's difference-bound prover in c10_prove.go (Bellman-Ford over branch facts, wrap-aware SSA definitions, slice-length definitions, call-site and return summaries)", "every call of an unexported function that is not used as a value is a static call in a non-test file of the repository", "int is 64 bits wide and no slice is longer than 2^56 elements", "io.ReadFull fills the whole buffer or returns an error", "(*bufio.Reader).Peek(n) returns exactly n bytes when its error is nil", "the reading methods of golang.org/x/crypto/cryptobyte.String never panic", "type-based aliasing: no package unsafe / reflection writes and no data race on the cursor and connection objects of one connection between a store and the loads that rely on it (c10_mem.go)"},
 		Mutants: append([]mutant{
@@ -104,7 +104,7 @@ func init() {
 			{Name: "handler skips six bytes of a buffer that is only known to hold five", File: "proxy/tcp/sni_proxy.go",
 				Old: "readServerName(data[5:])", New: "readServerName(data[6:])", Expect: "C10.M3",
 				More: []repl{{"\tbufferSize, err := clientHelloBufferSize(tlsHeaders)\n", "\tbufferSize, err := clientHelloBufferSize(tlsHeaders)\n\tbufferSize -= 5\n"}}},
-		}, c10mutantsRound2...),
+		}, append(c10mutantsRound2, c10mutantsRound3...)...),
 	})
 }
 
